@@ -27,6 +27,7 @@ class Check(object):
         self.functions = set()
         self.assumptions = []
         self.trusted = []
+        self.contracts_hit = []
         self.bounded = []
         self.replayers = {}          # obligation-name prefix -> fn(result)
         self.paths = 0
@@ -47,6 +48,22 @@ class Check(object):
     def lemma(self, name, goal, hyps=(), kind='A', info=None):
         self.extra.append(Obligation(name, kind, [], list(hyps), goal, (),
                                      info))
+
+    def _trusted_base(self):
+        proved = set(f.split(':', 1)[1] for f in self.functions if ':' in f)
+        out = list(self.trusted)
+        for c in sorted(self.contracts_hit):
+            qual = c.split('.', 1)[1] if c.startswith('placement.') else c
+            tail = c.rsplit('.', 2)
+            short = '.'.join(tail[-2:]) if len(tail) >= 2 else c
+            last = c.rsplit('.', 1)[-1]
+            if any(p == last or p.endswith('.' + last) and p in c
+                   for p in proved):
+                continue
+            kind = 'assumed contract' if c.startswith('placement.') \
+                else 'library stub'
+            out.append('%s (%s)' % (c, kind))
+        return out
 
     def assume(self, *ids):
         for i in ids:
@@ -133,6 +150,9 @@ class Check(object):
         self.canary_results.extend(o['canaries'])
         for k, v in o.get('files', {}).items():
             source.files_read[k] = v
+        for c in o.get('contracts_hit', []):
+            if c not in self.contracts_hit:
+                self.contracts_hit.append(c)
 
     # -------------------------------------------------------------- verdict
     def finish(self):
@@ -320,7 +340,12 @@ class Check(object):
                 'checker_cmd': 'pyvc (AST symbolic executor over /repo '
                                'sources) + z3 %s / cvc5 1.0.3'
                                % z3.get_version_string(),
-                'trusted_base': self.trusted,
+                # sidecar contracts / stubs that call sites used instead of
+                # a body: functions of the tree whose body this check does not
+                # prove itself are ASSUMED contracts here (several are proved
+                # by another check, see DESIGN section 4); library entries are
+                # A-lib
+                'trusted_base': self._trusted_base(),
                 'by_backend': by_backend,
                 'solver_seconds': {k: round(v, 2) for k, v in secs.items()},
                 'feasibility_seconds': round(self.feas_time, 2),
@@ -531,6 +556,7 @@ def _worker(task):
     out = _discharge_bucket(chk, ex.obligations, name,
                             is_canary_script=(kind == 'canary'))
     out['undecided'] = und + out['undecided']
+    out['contracts_hit'] = sorted(getattr(ex, 'contracts_hit', ()))
     out['paths'] = ex.paths
     out['feas_time'] = ex.feas_time
     if os.environ.get('PYVC_DEBUG'):
